@@ -1424,6 +1424,7 @@ pub struct ScriptInner {
     returned_end: bool,
     /// how many more times the stream wakes its own waker from inside a poll that returns Pending
     pub wake_in_poll: usize,
+    pub yield_in_poll: usize,
 }
 
 pub struct ScriptedStream {
@@ -1443,7 +1444,7 @@ pub struct StreamCtl {
 }
 
 pub fn scripted_stream(preloaded: &[u32]) -> (ScriptedStream, StreamCtl) {
-    let inner = Arc::new(StdMutex::new(ScriptInner { items: preloaded.iter().cloned().collect(), ended: false, waker: None, polls: 0, eager_waker: false, polls_after_end: 0, returned_end: false, wake_in_poll: 0 }));
+    let inner = Arc::new(StdMutex::new(ScriptInner { items: preloaded.iter().cloned().collect(), ended: false, waker: None, polls: 0, eager_waker: false, polls_after_end: 0, returned_end: false, wake_in_poll: 0, yield_in_poll: 0 }));
     let drops = Arc::new(AtomicUsize::new(0));
     let chan_lock = Arc::new(vsched::sync::Mutex::new(()));
     let wake_locked = Arc::new(std::sync::atomic::AtomicBool::new(false));
@@ -1474,6 +1475,13 @@ impl futures::Stream for ScriptedStream {
         if g.eager_waker {
             g.waker = Some(cx.waker().clone());
         }
+        if g.yield_in_poll > 0 && !g.returned_end {
+            // a cooperative yield (budget exhausted): wake the caller, register nothing, say Pending although items may be ready
+            g.yield_in_poll -= 1;
+            drop(g);
+            cx.waker().wake_by_ref();
+            return Poll::Pending;
+        }
         if let Some(i) = g.items.pop_front() {
             Poll::Ready(Some(i))
         } else if g.ended {
@@ -1496,6 +1504,11 @@ impl StreamCtl {
     /// The next `k` polls that find nothing wake the registered waker from inside `poll_next` itself
     pub fn set_wake_in_poll(&self, k: usize) {
         self.inner.lock().unwrap().wake_in_poll = k;
+    }
+    /// The next `k` polls are cooperative yields: they wake the polling context, register nothing and return Pending even
+    /// when items are ready
+    pub fn set_yield_in_poll(&self, k: usize) {
+        self.inner.lock().unwrap().yield_in_poll = k;
     }
     /// From now on the producer side wakes the consumer while holding the channel's lock (the `lock(); ...; waker.wake()`
     /// pattern), and the stream's destructor takes the same lock
